@@ -121,7 +121,7 @@ class Model:
         raise ValueError(pos)
 
 
-OPS = ["assign-attr", "assign-tree", "assign-subdict", "same", "fresh", "files", "append", "rekey-root", "rekey-sub", "move-sub", "adopt-item", "attach-used"]
+OPS = ["assign-attr", "assign-tree", "assign-subdict", "same", "fresh", "files", "append", "rekey-root", "rekey-sub", "move-sub", "adopt-item", "adopt-extend", "attach-used"]
 
 
 def histories(depth):
@@ -173,6 +173,8 @@ def jobs(tier):
                                 "ctmode": "class" if fmt in ("json", "yaml", "bson") else "instance",
                                 "fmt": fmt, "plaintexts": b["plaintexts"], "depth": b["history_depth"],
                                 "new_process": tier == "thorough" or (method == "aes" and fmt == "json")})
+    for method in b["methods"]:
+        out.append({"name": "unassigned/%s" % method, "kind": "unassigned", "method": method, "plaintexts": b["plaintexts"], "formats": b["formats"]})
     return out
 
 
@@ -220,10 +222,86 @@ def new_process_session(ctx, job, pname):
         ctx.violation(fpb + "new-process-differs", "a new interpreter session reads %s, saved from %s" % (got, want), case)
 
 
+def _unassigned(job, ctx):
+    """secrets that were never assigned or loaded: a constant default, a callable default, a value supplied by the field's
+    environment variable - at the root, in a sub-configuration, in a config type and in a list item created from an
+    empty map.  The rendered output carries method + ciphertext under the configuration's key file, never the plaintext."""
+    import cincoconfig as cc
+    tmp = ctx.tmp
+    write_keys(tmp)
+    method, only = job["method"], job.get("only")
+    for pname in job["plaintexts"]:
+        P = PLAINTEXTS[pname]
+        for source in ("default", "callable", "env"):
+            for keymode in ("root", "default"):
+                for fmt in job["formats"]:
+                    ident = [pname, source, keymode, fmt]
+                    if only is not None and only != ident:
+                        continue
+                    dflt = {"default": P, "callable": (lambda P=P: P), "env": None}[source]
+                    envs = {"C03U_S": P, "C03U_SUB_S": P} if source == "env" else {}
+                    os.environ.update(envs)
+                    try:
+                        s = cc.Schema(env="C03U" if source == "env" else False)
+                        s.s = cc.SecureField(method=method, default=dflt)
+                        s.plain = cc.StringField(default="visible")
+                        s.sub.s = cc.SecureField(method=method, default=dflt)
+                        ts = cc.Schema()
+                        ts.s = cc.SecureField(method=method, default=dflt if source != "env" else P)     # a config type's schema is not under the prefix
+                        s.t = cc.make_type(ts, "CT3U")
+                        item = cc.Schema()
+                        item.s = cc.SecureField(method=method, default=dflt if source != "env" else P)
+                        s.items = cc.ListField(item)
+
+                        def mk():
+                            c = cc.Config(s, key_filename=keypath(tmp, "root")) if keymode == "root" else s()
+                            c.items = [{}]
+                            return c
+                        fpb = "C03|unassigned|%s|%s|%s|" % (source, method, keymode)
+                        case = _case(job, ident)
+                        ctx.transitions += 1
+                        try:
+                            cfg = mk()
+                            tree = cfg.to_tree()
+                            data = cfg.dumps(fmt)
+                        except Exception as exc:  # noqa
+                            ctx.violation(fpb + "raises", "rendering a configuration whose secrets come from %s raised %r" % (source, exc), case)
+                            continue
+                        ctx.case(("unassigned", pname, source, keymode, fmt, method), "unassigned:%s" % source, True)
+                        raw = P.encode()
+                        for needle in (raw, base64.b64encode(raw), raw.hex().encode(), json.dumps(P).encode()[1:-1]):
+                            if needle in data:
+                                ctx.violation(fpb + "plaintext-in-output", "the %s document contains the plaintext of a secret that came from %s" % (fmt, source), case)
+                                break
+                        key = KEYS["root" if keymode == "root" else "default"]
+                        for pos, sv in collect_secrets(tree):
+                            if not isinstance(sv, dict) or sv.get("method") not in ("aes", "xor") or not isinstance(sv.get("ciphertext"), str):
+                                ctx.violation(fpb + "stored-shape|" + _poskind(pos), "%s (from %s) is rendered as %s" % (pos, source, V.show(sv, 60)), case)
+                            elif _try(sv["method"], key, base64.b64decode(sv["ciphertext"])) != raw:
+                                ctx.violation(fpb + "wrong-key|" + _poskind(pos), "%s (from %s) does not decrypt under the configuration's key file" % (pos, source), case)
+                        if len(collect_secrets(tree)) != 4:
+                            ctx.violation(fpb + "positions", "expected 4 secret positions in the tree, found %s" % [p for p, _ in collect_secrets(tree)], case)
+                    finally:
+                        for k in envs:
+                            os.environ.pop(k, None)
+                    try:
+                        fresh = mk()
+                        fresh.loads(data, fmt)
+                        got = [fresh.s, fresh.sub.s, fresh.t.s, fresh.items[0].s]
+                        if got != [P] * 4:
+                            ctx.violation(fpb + "reload-differs", "after reload the secrets read %r" % (got,), case)
+                    except Exception as exc:  # noqa
+                        ctx.violation(fpb + "reload-raises", "loading the document back raised %r" % (exc,), case)
+    ctx.states += 1
+    ctx.traces += 1
+
+
 def run_job(job, ctx):
     single = job.get("single")
     if single:
         job = dict(single["jobparams_full"]); job["only"] = single["only"]
+    if job.get("kind") == "unassigned":
+        return _unassigned(job, ctx)
     only = job.get("only")
     CTMODE[0] = job.get("ctmode", "class")
     if only is None and job.get("new_process") or (only is not None and only[1] == ["new-process"]):
@@ -486,6 +564,23 @@ def run_history(ctx, job, pname, hist):
                 n = len(cfg.items)
                 cfg.items.append(it)
                 model.secrets.update({"items[%d].s" % n: p2, "items[%d].inner.s" % n: p})
+            elif op == "adopt-extend":
+                # the items of another root built from the *same* schema (other key file) are taken over wholesale:
+                # extend() with the other list for plain item schemas, += for config-type items
+                other = cc.Config(schema, key_filename=keypath(tmp, "root2"))
+                other.items = [{"s": p2, "inner": {"s": p}}, {"s": p}]
+                other.ts = [{"s": p2}]
+                other.dumps(fmt)
+                if cfg.items is None:
+                    cfg.items = []
+                n = len(cfg.items)
+                cfg.items.extend(other.items)
+                model.secrets.update({"items[%d].s" % n: p2, "items[%d].inner.s" % n: p, "items[%d].s" % (n + 1): p})
+                if cfg.ts is None:
+                    cfg.ts = []
+                n = len(cfg.ts)
+                cfg.ts += other.ts
+                model.secrets.update({"ts[%d].s" % n: p2})
             elif op == "attach-used":
                 # configurations that were used on their own first (no parent, default key file) are attached to this tree
                 obj = schema._fields["sub"]()
